@@ -193,7 +193,7 @@ def run(ctx: vlib.Ctx):
                             "(one position of a valid wire value replaced by a wrong JSON type / removed / null / extra key / surplus item, or pure junk); "
                             "distinct = (type tree, input) pairs; non-trivial = input is not the unmodified encoder output")
     ctx.theorems("props/C03_unpack.vo", ["C03_unpack_ref", "C03_strict_or_same", "C03_unpack_ref_partial", "C03_unpack_short_input_refuted", "C03_unpack_ref_refuted",
-                                         "C03_field_unpacker", "C03_well_typed", "C03_well_typed_ord", "C03_str_input_any_fuel", "C03_str_fuel_sufficient"])
+                                         "C03_field_unpacker", "C03_well_typed", "C03_well_typed_ord", "C03_str_input_any_fuel", "C03_str_fuel_sufficient", "C03_str_fuel_sufficient_ranked"])
     ctx.trusted += ["tools/kernels/k7_tuple_indexes.py (translator of the arg_indexes loop; validated each run against the source loop executed on abstract argument lists)"]
     ctx.trusted += ["TyModel.v (cu/uk: hand-written model of unpack.py registry order incl. iteration of str/dict inputs, tuple surplus, field lookup, "
                     "NamedTuple positions with trailing defaults, TypedDict required/optional keys) "
